@@ -830,6 +830,17 @@ where
             return;
         }
 
+        // Do not admit an entry that is no longer in the cache (hash map): it has
+        // been invalidated or replaced since this op was queued, and nothing would
+        // ever unlink its deque nodes or give back its weight.
+        let is_current = self
+            .cache
+            .get(&kh.key)
+            .map_or(false, |e| TrioArc::ptr_eq(e.entry_info(), entry.entry_info()));
+        if !is_current {
+            return;
+        }
+
         if self.has_enough_capacity(new_weight, counters) {
             // There are enough room in the cache (or the cache is unbounded).
             // Add the candidate to the deques.
